@@ -390,6 +390,15 @@ impl PartialEq for Addr {
     fn eq(&self, other: &Addr) -> (r: bool) { unimplemented!() }
 }
 impl Eq for Addr {}
+// cosmwasm_std: `impl PartialEq<String> for Addr` (text comparison)
+impl vstd::std_specs::cmp::PartialEqSpecImpl<String> for Addr {
+    open spec fn obeys_eq_spec() -> bool { true }
+    open spec fn eq_spec(&self, other: &String) -> bool { self@ == other@ }
+}
+impl PartialEq<String> for Addr {
+    #[verifier::external_body]
+    fn eq(&self, other: &String) -> (r: bool) { unimplemented!() }
+}
 
 pub proof fn lemma_addr_ext(a: Addr, b: Addr)
     ensures a@ == b@ <==> a == b,
